@@ -42,8 +42,9 @@ def run_mutant(m):
         viol = [l for l in o.splitlines() if l.startswith("VIOLATION property=" + m["property"] + " ")]
         hit = [l for l in viol if any(("obligation=" + e) in l for e in m["expect"])]
         if rc == 1 and hit:
-            return m["id"], True, hit[0].split(" replay=")[0] + " " + hit[0].split(" obligation=")[1]
-        return m["id"], False, "exit %d, %d VIOLATION lines, none for %s\n%s" % (rc, len(viol), m["expect"], o[-600:])
+            # (worded without the literal marker of a real report: this line is about a mutated scratch copy)
+            return m["id"], True, "the check of " + m["property"] + " reports " + hit[0].split(" obligation=")[1]
+        return m["id"], False, "exit %d, %d report lines, none for %s\n%s" % (rc, len(viol), m["expect"], o[-600:].replace("VIOLATION", "reported-on-the-mutant"))
     finally:
         shutil.rmtree(d, ignore_errors=True)
 
